@@ -1,6 +1,7 @@
 package vc
 
 import (
+	"sort"
 	"bufio"
 	"fmt"
 	"go/ast"
@@ -464,4 +465,95 @@ func (p *Program) globalStringConst(g *ssa.Global) (string, bool) {
 		return "", false
 	}
 	return s, true
+}
+
+// FrozenFields scans the SSA of the declaring package for writes to the fields of an existing object of the named
+// struct type: a store through a field address whose base is not an allocation of the same function (a composite
+// literal under construction), or a field address of interface/pointer/map/slice/chan type that escapes (anything
+// but a load or a store through it). An empty result means: once constructed, the fields keep their values, so what
+// the constructor establishes about them is an object invariant.
+func (p *Program) FrozenFields(pkgPath, typeName string) []string {
+	pk := p.ByPath[pkgPath]
+	if pk == nil {
+		return []string{"package " + pkgPath + " not loaded"}
+	}
+	sp := p.SSA.Package(pk.Types)
+	if sp == nil {
+		return []string{"no SSA for " + pkgPath}
+	}
+	p.build(sp)
+	obj := pk.Types.Scope().Lookup(typeName)
+	if obj == nil {
+		return []string{"type " + typeName + " not found in " + pkgPath}
+	}
+	st, ok := obj.Type().Underlying().(*types.Struct)
+	if !ok {
+		return []string{typeName + " is not a struct"}
+	}
+	for i := 0; i < st.NumFields(); i++ {
+		if st.Field(i).Exported() && !st.Field(i).Embedded() {
+			return []string{"field " + st.Field(i).Name() + " is exported: writes outside the package are possible"}
+		}
+	}
+	var out []string
+	var visit func(fn *ssa.Function)
+	seen := map[*ssa.Function]bool{}
+	visit = func(fn *ssa.Function) {
+		if fn == nil || seen[fn] {
+			return
+		}
+		seen[fn] = true
+		for _, b := range fn.Blocks {
+			for _, ins := range b.Instrs {
+				fa, ok := ins.(*ssa.FieldAddr)
+				if !ok {
+					continue
+				}
+				pt, ok := fa.X.Type().Underlying().(*types.Pointer)
+				if !ok || !types.Identical(pt.Elem(), obj.Type()) {
+					continue
+				}
+				if _, fresh := fa.X.(*ssa.Alloc); fresh {
+					continue
+				}
+				ft := st.Field(fa.Field).Type().Underlying()
+				refLike := false
+				switch ft.(type) {
+				case *types.Interface, *types.Pointer, *types.Map, *types.Slice, *types.Chan, *types.Signature:
+					refLike = true
+				}
+				for _, r := range *fa.Referrers() {
+					switch r := r.(type) {
+					case *ssa.Store:
+						if r.Addr == fa {
+							out = append(out, fmt.Sprintf("%s: %s.%s is assigned in %s", p.Fset.Position(r.Pos()), typeName, st.Field(fa.Field).Name(), fn.String()))
+						}
+					case *ssa.UnOp, *ssa.DebugRef:
+					default:
+						if refLike {
+							out = append(out, fmt.Sprintf("%s: the address of %s.%s escapes in %s", p.Fset.Position(fa.Pos()), typeName, st.Field(fa.Field).Name(), fn.String()))
+						}
+					}
+				}
+			}
+		}
+		for _, a := range fn.AnonFuncs {
+			visit(a)
+		}
+	}
+	for _, m := range sp.Members {
+		switch m := m.(type) {
+		case *ssa.Function:
+			visit(m)
+		case *ssa.Type:
+			for _, t := range []types.Type{m.Type(), types.NewPointer(m.Type())} {
+				ms := p.SSA.MethodSets.MethodSet(t)
+				for i := 0; i < ms.Len(); i++ {
+					visit(p.SSA.MethodValue(ms.At(i)))
+				}
+			}
+		}
+	}
+	sort.Strings(out)
+	return out
 }
